@@ -492,6 +492,10 @@ impl HelpTemplate<'_, '_> {
                     arg.get_id(),
                     longest
                 );
+            } else {
+                // Short-only flags are aligned without the `, --` filler (see `align_to_about`),
+                // but a wide one (e.g. `-v...`) must still fit before the help column
+                longest = longest.max(display_width(&arg.to_string()));
             }
 
             let key = (sort_key)(arg);
